@@ -288,6 +288,15 @@ type writeFn func(w io.Writer) (err error, panicked interface{})
 func enumerateWriter(t *rapid.T, r *core.SplitMix, surface string, input interface{}, write writeFn) {
 	w0 := &simio.SimWriter{}
 	err0, p0 := write(w0)
+	for capability := 1; capability < 4 && p0 == nil && err0 == nil; capability++ {
+		// whatever else the writer implements, the bytes must be the same
+		wc := &simio.SimWriter{}
+		errc, pc := write(wc.As(capability))
+		if pc != nil || errc != nil || string(wc.Buf) != string(w0.Buf) {
+			core.Violation(t, "C15:"+surface+":writer-capability-changes-output", fmt.Sprintf("a fault-free writer that also implements capability %d received different bytes (err %v, panic %v)", capability, errc, pc), caseTrace{Surface: surface, Input: input, Doc: fmt.Sprintf("%q", w0.Buf), Observed: fmt.Sprintf("%q", wc.Buf)})
+			return
+		}
+	}
 	if p0 != nil {
 		core.Violation(t, "C15:panic:"+surface+":fault-free", fmt.Sprint("panic without any fault: ", p0), caseTrace{Surface: surface, Input: input})
 		return
@@ -312,10 +321,11 @@ func enumerateWriter(t *rapid.T, r *core.SplitMix, surface string, input interfa
 			}
 			k := writeKinds[r.Intn(len(writeKinds))]
 			w := &simio.SimWriter{Fault: &simio.WriteFault{At: pos, Short: short, Kind: k.name, Err: k.err, Once: once}}
-			err, pan := write(w)
+			capability := r.Intn(4) // plain | io.ByteWriter | io.StringWriter | both
+			err, pan := write(w.As(capability))
 			core.Steps(w.Writes)
 			note(surface, pos, shape, k.name, w.Fired, inputSig)
-			tr := caseTrace{Surface: surface, Input: input, Doc: fmt.Sprintf("%q", want), Position: pos, Of: n, Shape: shape, Kind: k.name, Fired: w.Fired, Observed: fmt.Sprintf("%q", w.Buf)}
+			tr := caseTrace{Surface: surface, Input: input, Doc: fmt.Sprintf("%q", want), Position: pos, Of: n, Shape: shape, Kind: k.name, Fired: w.Fired, Observed: fmt.Sprintf("%q", w.Buf), Plan: map[string]int{"writer_capability": capability}}
 			if pan != nil {
 				core.Violation(t, "C15:panic:"+surface, fmt.Sprintf("panic with the writer failing at byte %d/%d (%s, %s): %v", pos, n, shape, k.name, pan), tr)
 				return
